@@ -38,7 +38,7 @@ class Observation:
 
 def run_incremental(schema, doc, variables, value_fn, seed, p_async=0.5, policy='random', early=False, script=None,
                     stop=None, with_signal=False, rng=None, p_iter=0.2, p_item_async=0.2, max_pulls=200, harness_cls=Harness, source_burst=1,
-                    tof=False, p_double=0.0, p_task=0.0):
+                    tof=False, p_double=0.0, p_task=0.0, slow_close=False):
     """stop: None | ('aclose', k) | ('abort', reason) | ('abort', reason, 'before') | ('cancel-pull', k)
 
     abort is an external scheduler action, enabled from the start; with 'before' the signal is already aborted when the
@@ -55,6 +55,7 @@ def run_incremental(schema, doc, variables, value_fn, seed, p_async=0.5, policy=
                      **({'hide_typename': True, 'p_type_async': 0.5} if tof else {}))
     hz.source_burst = source_burst
     hz.p_task = p_task
+    hz.slow_close = slow_close
     if tof:
         from . import aharness
         aharness._current[0] = hz
